@@ -70,6 +70,8 @@ type fsm13 struct {
 	currentFlight      dtlsflight13.Flight
 	flights            []*dtlsflight.Packet
 	retransmit         bool
+	replyOnly          bool // never sent on a timer, but repeated whenever the peer repeats its request
+	lastSent           time.Time
 	retransmitInterval time.Duration
 	flightACK          reliableFlight
 	handshakeContext
@@ -276,6 +278,7 @@ func (s *fsm13) prepare(ctx context.Context, conn Conn) (nextState State, err er
 	} else {
 		pkts, dtlsAlert, err = gen(conn, s.state, s.cache, s.cfg)
 		s.retransmit = retransmit
+		s.replyOnly = !retransmit
 	}
 	if err = notifyAlert(ctx, conn, dtlsAlert, err); err != nil {
 		return StateErrored, err
@@ -298,6 +301,7 @@ func (s *fsm13) send(ctx context.Context, conn Conn) (State, error) {
 		return StateErrored, err
 	}
 	s.flightACK.track(result)
+	s.lastSent = time.Now()
 	finished, err := s.afterSend(ctx, conn, s.currentFlight)
 	if err != nil {
 		return StateErrored, err
@@ -469,6 +473,16 @@ func (s *fsm13) transitionAfterACK(result ACKResult, peerRetransmit bool) receiv
 		}
 
 		return receivedFlightTransition{state: StateWaiting}
+	}
+	if peerRetransmit && s.replyOnly {
+		// The peer repeated its request, so the reply (a HelloRetryRequest) was
+		// lost. It has no timer of its own: answer the repeated request again,
+		// once per repetition (a fragmented ClientHello arrives as a burst).
+		if time.Since(s.lastSent) < s.cfg.InitialRetransmitInterval/2 {
+			return receivedFlightTransition{state: StateWaiting}
+		}
+
+		return receivedFlightTransition{state: StateSending}
 	}
 	if result.Empty || len(result.Messages) != 0 || peerRetransmit {
 		return receivedFlightTransition{
